@@ -3,6 +3,7 @@ package props
 import (
 	"bufio"
 	"bytes"
+	stdflate "compress/flate"
 	"compress/zlib"
 	"encoding/json"
 	"fmt"
@@ -84,6 +85,21 @@ func buildContainer(pkg string, in RInput) ([]byte, error) {
 	switch pkg {
 	case "flate":
 		out = body
+		if in.Dict != nil {
+			// written by compress/flate with the dictionary, so that matches may reach into it
+			var b bytes.Buffer
+			w, e := stdflate.NewWriterDict(&b, 6, recipeBytes(in.Dict))
+			if e != nil {
+				return nil, e
+			}
+			data := expected
+			if !known {
+				data = body
+			}
+			w.Write(data)
+			w.Close()
+			out = b.Bytes()
+		}
 	case "gzip":
 		h := in.Hdr
 		if h == nil {
@@ -136,6 +152,28 @@ type transcript struct {
 	Hdr     string
 	Out     []byte
 	Err     string
+	Kind    string
+}
+
+// looseDiff compares two transcripts of Readers with different implementations (fastgo's own
+// inflater after Reset(src, dict) against compress/flate's, which is what NewReaderDict returns):
+// the kind of the final error must agree, and what was handed out before an error may differ only
+// in how much of the common output was delivered.
+func (a transcript) looseDiff(b transcript) string {
+	if a.OpenErr != b.OpenErr {
+		return fmt.Sprintf("Reset returned %q, a new Reader's constructor returns %q", a.OpenErr, b.OpenErr)
+	}
+	if a.Kind != b.Kind {
+		return fmt.Sprintf("final error %q (%d bytes), a new Reader (NewReaderDict) ends with %q (%d bytes)", a.Err, len(a.Out), b.Err, len(b.Out))
+	}
+	if a.Kind == "EOF" {
+		if !bytes.Equal(a.Out, b.Out) {
+			return fmt.Sprintf("output differs at byte %d (%d bytes vs %d from a new Reader)", firstDiff(a.Out, b.Out), len(a.Out), len(b.Out))
+		}
+	} else if !bytes.HasPrefix(a.Out, b.Out) && !bytes.HasPrefix(b.Out, a.Out) {
+		return fmt.Sprintf("output before the error differs at byte %d from a new Reader's", firstDiff(a.Out, b.Out))
+	}
+	return ""
 }
 
 func (a transcript) diff(b transcript) string {
@@ -154,9 +192,9 @@ func (a transcript) diff(b transcript) string {
 	return ""
 }
 
-func drain(r io.Reader, reads []int) ([]byte, string) {
+func drain(r io.Reader, reads []int) ([]byte, string, string) {
 	out, err := readAllChunks(r, reads, 0)
-	return out, errStr(err)
+	return out, errStr(err), errKind(err)
 }
 
 func hdrString(h fgzip.Header) string {
@@ -164,10 +202,11 @@ func hdrString(h fgzip.Header) string {
 }
 
 type pkgReader struct {
-	pkg string
-	fl  io.ReadCloser
-	gz  *fgzip.Reader
-	zl  io.ReadCloser
+	pkg   string
+	model bool // the freshly constructed Reader the used one is compared with
+	fl    io.ReadCloser
+	gz    *fgzip.Reader
+	zl    io.ReadCloser
 }
 
 // open constructs (first use) or resets the reader onto z.
@@ -178,11 +217,20 @@ func (p *pkgReader) open(z []byte, chunks []int, rdict []byte, fresh bool) (t tr
 func (p *pkgReader) openSrc(src io.Reader, rdict []byte, fresh bool) (t transcript, r io.Reader) {
 	switch p.pkg {
 	case "flate":
-		if p.fl == nil || fresh {
+		if p.model && len(rdict) > 0 {
+			// the model: what the package's constructor for a dictionary returns
+			p.fl = fflate.NewReaderDict(src, rdict)
+		} else if (p.fl == nil || fresh) && len(rdict) == 0 {
 			p.fl = fflate.NewReader(src)
-		} else if e := p.fl.(fflate.Resetter).Reset(src, nil); e != nil {
-			t.OpenErr = e.Error()
-			return t, nil
+		} else {
+			if p.fl == nil || fresh {
+				// the Reader under test is always fastgo's own: a dictionary reaches it through Reset
+				p.fl = fflate.NewReader(bytes.NewReader(nil))
+			}
+			if e := p.fl.(fflate.Resetter).Reset(src, rdict); e != nil {
+				t.OpenErr = e.Error()
+				return t, nil
+			}
 		}
 		return t, p.fl
 	case "gzip":
@@ -236,6 +284,18 @@ func drawRInput(t *rapid.T, pkg string, allowBad bool) RInput {
 	}
 	if pkg == "gzip" && rapid.IntRange(0, 2).Draw(t, "hdr") == 0 {
 		in.Hdr = &GzHdr{Name: rapid.StringMatching(`[a-z]{0,6}`).Draw(t, "name"), Comment: rapid.StringMatching(`[a-z]{0,6}`).Draw(t, "comment"), MTime: int64(rapid.IntRange(0, 1<<30).Draw(t, "mtime")), OS: byte(rapid.IntRange(0, 255).Draw(t, "os"))}
+	}
+	if pkg == "flate" {
+		// flate.Resetter's dictionary argument: Reset(src, dict) against NewReaderDict(src, dict)
+		switch rapid.IntRange(0, 11).Draw(t, "fdict") {
+		case 0, 1:
+			d := gen.Recipe{Segs: []gen.Seg{{Kind: "text", N: rapid.SampledFrom([]int{1, 16, 300, 2000, 32768, 40000}).Draw(t, "dlen"), Seed: 3}}}
+			in.Dict, in.RDict = &d, &d
+		case 2:
+			d := gen.Recipe{Segs: []gen.Seg{{Kind: "text", N: 100, Seed: 5}}}
+			in.RDict = &d // reader given a dictionary the stream does not refer to
+			in.Stream = drawValidStream(t, 64<<10)
+		}
 	}
 	if pkg == "zlib" {
 		switch rapid.IntRange(0, 5).Draw(t, "zdict") {
@@ -451,10 +511,10 @@ func checkC13(c C13Case) (labels []string, nontrivial bool, err error) {
 	}
 	rd := recipeBytes(c.Next.RDict)
 	// fresh reader first (the model)
-	fresh := &pkgReader{pkg: c.Pkg}
+	fresh := &pkgReader{pkg: c.Pkg, model: true}
 	want, fr := fresh.open(z, c.Chunks, rd, true)
 	if fr != nil {
-		want.Out, want.Err = drain(fr, c.Reads)
+		want.Out, want.Err, want.Kind = drain(fr, c.Reads)
 	}
 	// the used reader; if no earlier use managed to construct one, Reset is not possible: same as fresh
 	var got transcript
@@ -467,9 +527,14 @@ func checkC13(c C13Case) (labels []string, nontrivial bool, err error) {
 		got, ur = used.open(z, c.Chunks, dictFor(c.Next.RDict), !hasReader)
 	}
 	if ur != nil {
-		got.Out, got.Err = drain(ur, c.Reads)
+		got.Out, got.Err, got.Kind = drain(ur, c.Reads)
 	}
-	if d := got.diff(want); d != "" {
+	d := got.diff(want)
+	if c.Pkg == "flate" && len(rd) > 0 {
+		d = got.looseDiff(want)
+		labels = append(labels, "flate-reset-with-dictionary")
+	}
+	if d != "" {
 		return nil, false, fmt.Errorf("%s Reader after Reset: %s", c.Pkg, d)
 	}
 	// a caller-owned bufio.Reader used earlier must be exactly as the Reader left it
